@@ -177,7 +177,7 @@ settings: the whole chain text → PEG (generated grammar: `any_text`, `start`, 
 the nine block alternatives of `statement` failing, `setting`, `setting_value` with its look-aheads,
 `number_list`, `NEWLINE+`, `EOI`) → pair tree → `toAst` → `interp` is proved, for all such texts. -/
 theorem text_faithful_settings_partial (s : Setting) (ss : List Setting) (h : ∀ x ∈ s :: ss, Peg.LineCanon x) :
-    parse (Peg.fileText (s :: ss)) = some (interp ((s :: ss).map Stmt.setting)) :=
+    parse (Peg.fileText ((s :: ss).map Peg.settingItem)) = some (interp ((s :: ss).map Stmt.setting)) :=
   Peg.parse_file fuel_checked s ss h
 
 /-- **The scalar part of every description is reproduced from its text**: identification data,
@@ -207,7 +207,7 @@ example : Peg.LineCanon exampleSetting := by
     · exact ⟨'2', [], .inr rfl, by decide⟩
     · exact ⟨'3', ['0'], .inl rfl, by decide⟩
 
-example : Peg.fileText [exampleSetting, { key := "Vendor_Name".toList, index := none, value := .str ("\"x y\"".toList) }] =
+example : Peg.fileText ([exampleSetting, { key := "Vendor_Name".toList, index := none, value := .str ("\"x y\"".toList) }].map Peg.settingItem) =
     "#Profibus_DP\nExt_User_Prm_Data_Const(0)=1,-2,30\nVendor_Name=\"x y\"\n".toList := by decide
 
 /-! ### Non-vacuity -/
